@@ -316,21 +316,73 @@ def check(case, obs):
                 fails.append(("index/vertex-stored", "face %d carries the index %s, the field that was asked for gives %d (angle %.6g)"
                               % (t, obs["singuls"][t], want, ang)))
                 break
+    # ---- a field computation + flagging leaves on the mesh only its documented outputs and the geometry caches the library
+    #      is known to leave (feature detection, 'fixed', cotan / corner angles / normals / areas): anything else is a leaked
+    #      cache that later computations on the same mesh object will read
+    if "new_attrs" in obs:
+        allowed = ALLOWED_ATTRS[elem]
+        extra = {k: [x for x in v if x not in allowed[k]] for k, v in obs["new_attrs"].items()}
+        extra = {k: v for k, v in extra.items() if v}
+        if extra:
+            fails.append(("leak/attribute", "the %s-based field left new attribute(s) %s on the mesh (neither a documented output nor one of the "
+                                            "known geometry caches)" % (elem, extra)))
     return fails
 
 
-def history_check(case, obs, fresh):
-    """a field computed and flagged on a mesh object that carried earlier fields, against the same computation on a fresh mesh"""
-    a = np.array([complex(x, y) for x, y in obs["final"]])
+ALLOWED_ATTRS = {
+    "faces": {"vertices": {"border", "corners", "feature", "singuls"}, "edges": {"angles", "feature", "border"},
+              "faces": {"area", "fixed", "border"}, "face_corners": {"cotan"}},
+    "vertices": {"vertices": {"border", "corners", "feature", "normals"}, "edges": {"angles", "feature", "border"},
+                 "faces": {"area", "normals", "singuls", "border"}, "face_corners": {"angles", "cotan"}},
+}
+
+
+def cleared_matches_fresh(obs, fresh):
+    """the probe of a moved step: same call on the same object after deleting the known geometry caches == fresh mesh (field, indices)"""
+    cl = obs.get("cleared")
+    if not cl or cl.get("final") is None or cl.get("singuls") is None:
+        return False
+    c = np.array([complex(x, y) for x, y in cl["final"]])
     b = np.array([complex(x, y) for x, y in fresh["final"]])
-    if a.shape != b.shape or np.abs(a - b).max() > 1e-12:
-        return None   # smoothing weights come from a randomly started eigsh: fields differ in the last digits, ties may flip
+    cs, s2 = np.array(cl["singuls"], dtype=float), np.array(fresh["singuls"], dtype=float)
+    return bool(c.shape == b.shape and np.all(np.isfinite(c)) and np.abs(c - b).max() <= 1e-9 and np.abs(cs - s2).max() <= 1e-9)
+
+
+def history_check(case, obs, fresh):
+    """a field computed and flagged on a mesh object that carried earlier fields (possibly with its vertices moved since),
+    against the same computation on a fresh mesh of the same geometry.  -> list of (key, message)"""
+    def arr(l):
+        return np.array([complex(x, y) for x, y in l])
+    out = []
+    deterministic = len(obs["feat"]) > 0 and case["n_smooth"] == 0     # linear-solve branch without the eigsh-estimated weight
+    a, b = arr(obs["final"]), arr(fresh["final"])
+    same = a.shape == b.shape and np.all(np.isfinite(a)) and np.all(np.isfinite(b)) and np.abs(a - b).max() <= 1e-9
     s1, s2 = np.array(obs["singuls"], dtype=float), np.array(fresh["singuls"], dtype=float)
-    if np.abs(s1 - s2).max() > 1e-9:
-        k = int(np.argmax(np.abs(s1 - s2)))
-        return ("index/history", "the same field (order %d) flagged on a mesh that carried an earlier field stores index %.6g at element %d, "
-                                 "on a fresh mesh %.6g" % (case["order"], s1[k], k, s2[k]))
-    return None
+    if same:
+        if np.abs(a - b).max() <= 1e-12 and np.abs(s1 - s2).max() > 1e-9:
+            k = int(np.argmax(np.abs(s1 - s2)))
+            out.append(("index/history", "the same field (order %d) flagged on a mesh that carried an earlier field stores index %.6g at "
+                                         "element %d, on a fresh mesh %.6g" % (case["order"], s1[k], k, s2[k])))
+        return out
+    if not deterministic or not (np.all(np.isfinite(a)) and np.all(np.isfinite(b))):
+        return out   # randomly started eigen-solvers: fields legitimately differ
+    k = int(np.argmax(np.abs(a - b)))
+    cl = obs.get("cleared")
+    if obs.get("moved") and cl and cl.get("final") is not None:
+        c = arr(cl["final"])
+        cs = np.array(cl["singuls"], dtype=float)
+        if c.shape == b.shape and np.abs(c - b).max() <= 1e-9 and np.abs(cs - s2).max() <= 1e-9:
+            # recorded mechanism verified: once cotan / corner angles / normals / areas cached on the mesh are deleted, the very
+            # same call on the very same object gives the fresh result (field AND indices)
+            out.append(("history/stale-geometry-cache",
+                        "after its vertices were moved the mesh object gives another field than a fresh mesh of the same geometry "
+                        "(element %d: %r vs %r); deleting the cached cotan / angles / normals / area attributes restores it" % (k, complex(a[k]), complex(b[k]))))
+            return out
+    out.append(("history/field", "the field computed on a mesh object that carried earlier fields%s differs from the one of a fresh mesh of the "
+                                 "same geometry at element %d: %r vs %r%s"
+                % (" (vertices moved since)" if obs.get("moved") else "", k, complex(a[k]), complex(b[k]),
+                   ", also after deleting the known geometry caches" if obs.get("moved") else "")))
+    return out
 
 
 # ---------------------------------------------------------------------- metamorphic: renumbering / face rotation
